@@ -53,7 +53,7 @@ class StatsSuite(Suite):
 
     # ------------------------------------------------------------------ generators
     def cases(self, rng, tier, prop):
-        count = {"quick": 300, "thorough": 4000}[tier]
+        count = {"quick": 600, "thorough": 8000}[tier]
         out = []
         for kind in KINDS[:8] + ["negative", "mixedsign", "huge"]:     # every family at several lengths, alone
             for n in (1, 2, 3, 7):
@@ -71,7 +71,7 @@ class StatsSuite(Suite):
         n = rng.choice([0, 1, 1, 2, 2, 3, 4, 5, 8, 13, 21, 40])
         scale = rng.choice([0, 0, 1, 3, 6])
         sysc = []
-        for t in rng.sample(sorted(TYPES), rng.randint(0, 3)):
+        for t in rng.sample(sorted(TYPES), rng.choice([0, 1, 1, 2, 3])):
             for st in rng.sample(TYPES[t], rng.randint(1, 2)):
                 kind = rng.choice(KINDS + (["negative", "mixedsign", "huge"] if rng.random() < .25 else []))
                 as_int = scale == 0 and kind != "huge" and rng.random() < .3
